@@ -34,7 +34,14 @@ func genGated(r *core.Rand, prop string, weights []int, minA, maxA int) *core.Sc
 	case 3:
 		sc.Cfg["selfcopy"] = 1 // COPY/MOVE into the selected mailbox itself (finding F08)
 	}
-	if sc.Cfg["readd"] == 0 {
+	// multibox: messages may live in several mailboxes (COPY stays COPY, the remote may label
+	// a message with several mailboxes); without it every message is in one mailbox at a time.
+	// Whether a message was then added to a mailbox that already held it (finding F08) is
+	// recorded as a history attribute when it happens, not assumed from this knob.
+	if r.P(1, 2) || sc.Cfg["readd"] == 1 {
+		sc.Cfg["multibox"] = 1
+	}
+	if sc.Cfg["multibox"] == 0 {
 		sc.Cfg["labels"] = 0
 	}
 	if r.P(1, 4) {
